@@ -1,6 +1,6 @@
 """C13 — Proposed takeoff time matches the first crossing of the takeoff altitude."""
 import math
-from vlib.gen_stats import build, skyb, z_points, axis_points, fb
+from vlib.gen_stats import build, skyb, z_points, axis_points, fb, well_conditioned_cubic
 from vlib.gen_traj import f2b, b2f, PINF, NINF
 from vlib.skyb import hx
 
@@ -60,6 +60,50 @@ def generate(rng, tier):
             a = rng.choice([1.0, 1000.0, 4000.0, math.inf])
             qs.append(f"K{fb(h)},{fb(v)},{fb(a)}")
         out.append((f"stats {hx(skyb(blk, rng))} " + " ".join(qs), True))
+    # cubic climbs that start level or dipping and then rise steeply through the target (derivative changes sign
+    # inside the segment; exercises the "derivative never positive" shortcut of the cubic touch test), preceded by a
+    # hover and followed by a descent back through the target (a later, wrong crossing exists)
+    for i in range(200 if tier == "thorough" else 40):
+        scale = rng.choice([1, 10])
+        z0 = rng.randint(50, 900)
+        for _ in range(100):
+            dip = rng.choice([0, 0, rng.randint(1, 200)])
+            p1 = z0 - dip
+            p2 = z0 + rng.randint(300, 1500)
+            p3 = p2 + rng.randint(200, 1500)
+            if well_conditioned_cubic(z0, [p1, p2, p3]):
+                break
+        segs = [(rng.choice([1000, 2000]), [], [], [], []),
+                (rng.choice([1000, 4000, 10000]), [], [], [p1, p2, p3], []),
+                (2000, [], [], [], []),
+                (5000, [], [], [z0 - 20], [])]
+        blk = build(scale, (0, 0, z0, 0), segs)
+        qs = []
+        for frac in (0.05, 0.3, 0.5, 0.8, 0.97):
+            h = b2f(f2b((p3 - z0) * scale * frac))
+            qs.append(f"K{fb(h)},{fb(1000.0)},{fb(rng.choice([1000.0, math.inf]))}")
+        out.append((f"stats {hx(skyb(blk, rng))} " + " ".join(qs), True))
+    # one curved segment per branch pattern of the cubic touch test (signs of a, b, c, p'(1), the position of the
+    # vertex and of the derivative's minimum), targets spread over the altitude range of the segment
+    from vlib.gen_stats import stratified_cubics
+    for (z0, p) in stratified_cubics(rng, 6000 if tier == "thorough" else 1500, 2 if tier == "thorough" else 1):
+        scale = rng.choice([1, 10])
+        if min([z0] + p) * scale < -32000 or max([z0] + p) * scale > 32000 * scale:
+            continue
+        blk = build(scale, (0, 0, z0, 0), [(rng.choice([1000, 3000]), [], [], p, []), (2000, [], [], [z0], [])])
+        # exact Bezier range by sampling (targets need not be exact extremes)
+        vals = []
+        for i in range(41):
+            u = i / 40
+            vals.append(((1 - u) ** 3 * z0 + 3 * (1 - u) ** 2 * u * p[0] + 3 * (1 - u) * u * u * p[1] + u ** 3 * p[2]))
+        top = max(vals)
+        qs = []
+        for frac in (0.02, 0.25, 0.5, 0.75, 0.98, 1.05):
+            h = (top - z0) * scale * frac
+            if h >= 0:
+                qs.append(f"K{fb(b2f(f2b(h)))},{fb(1000.0)},{fb(1000.0)}")
+        if qs:
+            out.append((f"stats {hx(skyb(blk, rng))} " + " ".join(qs), True))
     # invalid parameters on a plain climb
     blk = build(10, (0, 0, 0, 0), [(5000, [], [], [300], []), (5000, [100], [], [], [])])
     f = hx(skyb(blk))
